@@ -277,6 +277,11 @@ func (vc *VC) evalIdent(fr *frame, st *State, id *ast.Ident) Val {
 
 func (vc *VC) readVar(fr *frame, st *State, o *types.Var, pos token.Pos) Val {
 	if v, ok := st.vars[o]; ok {
+		if bt, isT := v.(Term); isT && bt.Sort == SPBox {
+			key := "P:" + typeKey(o.Type())
+			h := vc.heap(st, key, ArrSort(vc.sortOf(o.Type())))
+			return Select(h, Term{bt.S, SInt})
+		}
 		if structOf(o.Type()) != nil {
 			if ref, isRef := v.(Term); isRef {
 				return vc.loadStruct(st, o.Type(), ref)
@@ -307,6 +312,19 @@ func (vc *VC) readGlobal(st *State, o *types.Var) Val {
 		if _, isI := t.Underlying().(*types.Interface); isI && strings.HasPrefix(o.Name(), "err") || strings.HasPrefix(o.Name(), "Err") {
 			if c.Sort == SIface {
 				vc.assumeGlobal(Gt(ITag(c), IntLit(0)))
+			}
+		}
+		// a variable with a constant initialiser that library code never assigns holds that value
+		if init, ok := vc.P.globalInit[o]; ok && !vc.P.globalsAssigned[o] {
+			for _, pk := range vc.P.Pkgs {
+				if tv, ok := pk.TypesInfo.Types[init]; ok && tv.Value != nil {
+					if cv, ok := vc.constVal(tv.Value, t); ok {
+						if ct, ok := cv.(Term); ok && ct.Sort == c.Sort {
+							vc.assumeGlobal(Eq(c, ct))
+						}
+					}
+					break
+				}
 			}
 		}
 		// a pointer variable initialised in its declaration by regexp.MustCompile / &T{...} / new(T) and
@@ -362,6 +380,27 @@ func (vc *VC) evalAddr(fr *frame, st *State, e ast.Expr) (Term, bool) {
 			if v, ok := st.vars[o]; ok {
 				if ref, ok := v.(Term); ok {
 					return ref, true
+				}
+			}
+		}
+		// address of a local scalar / slice variable: move it into a heap cell
+		if o, ok := fr.ctx.info.ObjectOf(x).(*types.Var); ok && structOf(o.Type()) == nil && vc.sortOf(o.Type()) != "" {
+			if _, isArr := o.Type().Underlying().(*types.Array); !isArr {
+				if v, ok := st.vars[o]; ok {
+					if cur, ok := v.(Term); ok {
+						if cur.Sort == SPBox {
+							return Term{cur.S, SInt}, true
+						}
+						ref := vc.allocRef(st, "addr!"+o.Name())
+						key := "P:" + typeKey(o.Type())
+						h := vc.heap(st, key, ArrSort(vc.sortOf(o.Type())))
+						saved := vc.checkFrm
+						vc.checkFrm = false
+						vc.setHeap(st, key, Store(h, ref, cur))
+						vc.checkFrm = saved
+						st.vars[o] = Term{ref.S, SPBox}
+						return ref, true
+					}
 				}
 			}
 		}
@@ -486,6 +525,11 @@ func (vc *VC) evalRecv(fr *frame, st *State, x *ast.SelectorExpr, sel *types.Sel
 	path = path[:len(path)-1] // embedded path to the receiver
 	baseT := fr.typeOf(x.X)
 	if wantPtr {
+		// a method of the pointer's own type called on a pointer value: the receiver is the pointer itself
+		// (no dereference happens at the call; a nil receiver is checked against the callee's contract)
+		if _, isPtr := baseT.Underlying().(*types.Pointer); isPtr && len(path) == 0 {
+			return vc.evalExpr(fr, st, x.X)
+		}
 		// need ref of receiver object
 		if ref, t, ok := vc.selBase(fr, st, x.X); ok {
 			if r, ok := vc.walkRef(st, ref, t, path, x.Pos()); ok {
